@@ -1,5 +1,295 @@
+/- HEAP and CACHE suites (property C15): the storage model on the case lines of harness/src/heaps.rs -/
 import Garnish.Driver.Proto
+import Garnish.Store.BasicHeap
+import Garnish.Store.SimpleCache
 namespace Garnish.Driver
-def heapCase (_f : List String) : String := "UNIMPLEMENTED"
-def cacheCase (_f : List String) : String := "UNIMPLEMENTED"
+open Garnish Garnish.Store
+
+/-! ### HEAP -/
+
+def parsePolicy (s : String) : Option (Policy × Option Nat) :=
+  let (body, mx) := match s.splitOn "x" with
+    | [b, m] => (b, m.toNat?)
+    | _ => (s, none)
+  match body.toList with
+  | 'f' :: ds => (String.ofList ds).toNat?.map (fun n => (.fixed n, mx))
+  | 'm' :: ds => (String.ofList ds).toNat?.map (fun n => (.mult n, mx))
+  | _ => none
+
+def parseOp (k : Nat) (tok : String) : Option MOp :=
+  match tok.toList with
+  | ['i'] => some (.instr k)
+  | ['j'] => some (.jump k)
+  | 's' :: ds => (String.ofList ds).toNat?.map (fun s => .sym s k)
+  | 'e' :: ds => (String.ofList ds).toNat?.map (fun s => .expr s k)
+  | ['d'] => some (.data k)
+  | ['c'] => some (.custom k)
+  | ['r'] => some (.pushRegister k)
+  | ['v'] => some (.pushValue k)
+  | ['f'] => some (.pushFrame k)
+  | 't' :: ds => (String.ofList ds).toNat?.map (fun n => .text n k)
+  | _ => none
+
+def tag : Cell → String
+  | .empty => "_"
+  | .instr k => s!"i{k}"
+  | .jump k => s!"j{k}"
+  | .assoc s v => s!"a{s}:{v}"
+  | .num k => s!"n{k}"
+  | .custom k => s!"c{k}"
+  | .register p v => s!"r{p}:{v}"
+  | .registerRoot v => s!"rr{v}"
+  | .value p v => s!"v{p}:{v}"
+  | .valueRoot v => s!"vr{v}"
+  | .frame p r => s!"f{p}:{r}"
+  | .frameIndex p => s!"fi{p}"
+  | .frameRegister r => s!"fr{r}"
+  | .frameRoot => "f0"
+  | .charList n => s!"t{n}"
+  | .char c => s!"h{c}"
+
+/-- what was added (mirrors `Log` in heaps.rs) -/
+structure Log where
+  instr : Array Nat := #[]
+  jumps : Nat := 0
+  syms : Nat := 0
+  exprs : Array Nat := #[]
+  data : Array Nat := #[]
+  texts : Array (Nat × Nat) := #[]
+  custom : Array Nat := #[]
+
+/-- the index an operation returns = the cursor of its block before the push -/
+def cursorOf (h : Heap) (k : Nat) : Nat := match h.blocks[k]? with | some b => b.cursor | none => 0
+
+def logOp (m : MStore) (log : Log) : MOp → Log
+  | .instr _ => { log with instr := log.instr.push (cursorOf m.heap 0 - 1) }
+  | .jump _ => { log with jumps := log.jumps + 1 }
+  | .sym _ _ => { log with syms := log.syms + 1 }
+  | .expr s _ => { log with exprs := log.exprs.push s }
+  | .data _ => { log with data := log.data.push (cursorOf m.heap 4 - 1) }
+  | .custom _ => { log with custom := log.custom.push (cursorOf m.heap 5 - 1) }
+  | .text n _ => { log with texts := log.texts.push (cursorOf m.heap 4 - 1 - n, n) }
+  | _ => log
+
+def showCellRes : Outcome Cell → (Cell → String) → String
+  | .ok c, f => f c
+  | _, _ => "!"
+
+def dataCell (h : Heap) (addr : Nat) : String := showCellRes (getN h 4 addr) tag
+
+def readInstr (h : Heap) (i : Nat) : String :=
+  showCellRes (getN h 0 i) (fun c => match c with | .instr k => s!"i{k}" | _ => "!")
+
+def readJump (h : Heap) (i : Nat) : String :=
+  showCellRes (getN h 1 i) (fun c => match c with | .jump k => s!"j{k}" | _ => "!")
+
+def readSymEntry (h : Heap) (i : Nat) : String :=
+  showCellRes (getN h 2 i) (fun c => match c with | .assoc s v => s!"a{s}:{v}" | _ => "!")
+
+def readCustom (h : Heap) (i : Nat) : String :=
+  showCellRes (getN h 5 i) (fun c => match c with | .custom k => s!"c{k}" | _ => "!")
+
+/-- `search_for_associative_item_index` (search.rs) on a slice; `none` = `Err` -/
+def searchLoop (items : Array Cell) (sym : Nat) : Nat → Nat → Nat → Option Nat
+  | 0, base, _ => some base
+  | fuel + 1, base, size =>
+    if size > 1 then
+      let half := size / 2
+      let mid := base + half
+      match items[mid]? with
+      | some (.assoc s _) => searchLoop items sym fuel (if s > sym then base else mid) (size - half)
+      | _ => none
+    else some base
+
+def readExpr (h : Heap) (sym : Nat) : String :=
+  match h.blocks[3]? with
+  | none => "!"
+  | some b =>
+    let items := (blockCells h.cells b).toArray
+    if items.size == 0 then "-"
+    else match searchLoop items sym (items.size + 1) 0 items.size with
+      | none => "!"
+      | some base =>
+        match items[base]? with
+        | some (.assoc s v) => if s == sym then s!"{v}" else "-"
+        | _ => "!"
+
+/-- `get_register`'s walk: values from the top down -/
+def regWalk (h : Heap) : Nat → Option Nat → List Nat
+  | 0, _ => []
+  | _ + 1, none => []
+  | fuel + 1, some i =>
+    match getN h 4 i with
+    | .ok (.register p v) => v :: regWalk h fuel (some p)
+    | .ok (.registerRoot v) => [v]
+    | _ => []
+
+def valWalk (h : Heap) : Nat → Option Nat → List Nat
+  | 0, _ => []
+  | _ + 1, none => []
+  | fuel + 1, some i =>
+    match getN h 4 i with
+    | .ok (.value p v) => v :: valWalk h fuel (some p)
+    | .ok (.valueRoot v) => [v]
+    | _ => []
+
+/-- `pop_frame` repeated on a copy: `<return>/<register depth after the pop>` -/
+def frameWalk (h : Heap) : Nat → Option Nat → List String
+  | 0, _ => []
+  | _ + 1, none => []
+  | fuel + 1, some i =>
+    -- `index - 1` is a usize subtraction: frames are pushed after their jump point, so `index >= 1`
+    match (if i = 0 then Outcome.panic "pop_frame" else getN h 4 (i - 1)) with
+    | .ok (.jump ret) =>
+      let fuelR := h.cells.size + 1
+      match getN h 4 i with
+      | .ok (.frame p r) => s!"{ret}/{(regWalk h fuelR (some r)).length}" :: frameWalk h fuel (some p)
+      | .ok (.frameIndex p) => s!"{ret}/0" :: frameWalk h fuel (some p)
+      | .ok (.frameRegister r) => [s!"{ret}/{(regWalk h fuelR (some r)).length}"]
+      | .ok .frameRoot => [s!"{ret}/0"]
+      | _ => ["!"]
+    | _ => ["!"]
+
+def join (sep : String) (l : List String) : String := String.intercalate sep l
+
+def dump (m : MStore) (log : Log) : String :=
+  let h := m.heap
+  let fuel := h.cells.size + 1
+  let b := h.blocks.map (fun b => s!"{b.start},{b.cursor},{b.size}")
+  let k := h.blocks.map (fun b => join "," ((List.range b.cursor).map (fun i =>
+    match h.cells[b.start + i]? with | some c => tag c | none => "OOB")))
+  let i := log.instr.toList.map (readInstr h)
+  let j := (List.range log.jumps).map (readJump h)
+  let s := (List.range log.syms).map (readSymEntry h)
+  let e := log.exprs.toList.map (readExpr h)
+  let d := log.data.toList.map (dataCell h)
+  let t := log.texts.toList.map (fun (a, n) => join "." ((List.range (n + 1)).map (fun o => dataCell h (a + o))))
+  let c := log.custom.toList.map (readCustom h)
+  let r := (regWalk h fuel m.curReg).reverse.map toString
+  let v := (valWalk h fuel m.curVal).map toString
+  let f := frameWalk h fuel m.curFrame
+  s!"B={join "|" b} H={h.cells.size} K={join "|" k} I={join "," i} J={join "," j} S={join "," s} E={join "," e} D={join "," d} T={join "," t} C={join "," c} R={join "," r} V={join "," v} F={join "," f}"
+
+/-- file of the panic site, as the harness prints it -/
+def siteFile (site : String) : String := (site.splitOn ":").headD ""
+
+def heapLoop : List String → Nat → MStore → Log → String
+  | [], _, m, log => s!"ok {dump m log}"
+  | tok :: toks, k, m, log =>
+    match parseOp k tok with
+    | none => "BAD-CASE"
+    | some op =>
+      match mstep m op with
+      | .ok m1 => heapLoop toks (k + 1) m1 (logOp m1 log op)
+      | .err _ => s!"ERR@{k}"
+      | .panic site => s!"PANIC@{k} {siteFile site}"
+      | .fuelOut => s!"FUEL@{k}"
+
+def heapCase (f : List String) : String :=
+  match f with
+  | _ :: _ :: pol :: sizes :: ops =>
+    let ps := (pol.splitOn ",").filterMap parsePolicy
+    let zs := (sizes.splitOn ",").filterMap String.toNat?
+    if ps.length != 6 || zs.length != 6 then "BAD-CASE" else
+    let toks := (ops.flatMap (fun s => s.splitOn " ")).filter (fun s => !s.isEmpty)
+    match init zs (ps.map (·.1)) (ps.map (·.2)) with
+    | .ok h => heapLoop toks 0 { heap := h } {}
+    | .err _ => "ERR@init"
+    | .panic site => s!"PANIC@init {siteFile site}"
+    | .fuelOut => "FUEL@init"
+  | _ => "BAD-CASE"
+
+/-! ### CACHE -/
+
+inductive Tm where
+  | atom (s : String)
+  | list (items : List Tm)
+
+/-- tokens of one s-expression field -/
+def tokenize (s : String) : List String :=
+  let (toks, cur) := s.toList.foldl (fun (acc : List String × List Char) c =>
+    let (toks, cur) := acc
+    let flush := if cur.isEmpty then toks else String.ofList cur.reverse :: toks
+    if c == '(' || c == ')' then (String.singleton c :: flush, [])
+    else if c == ' ' then (flush, [])
+    else (toks, c :: cur)) ([], [])
+  (if cur.isEmpty then toks else String.ofList cur.reverse :: toks).reverse
+
+/-- flat terms only: `(head arg*)` -/
+def parseFlat (s : String) : Option (String × List String) :=
+  match tokenize s with
+  | "(" :: head :: rest =>
+    match rest.reverse with
+    | ")" :: args => some (head, args.reverse)
+    | _ => none
+  | _ => none
+
+def typeDiscr (n : String) : Option Nat :=
+  (["Invalid", "Unit", "Number", "Type", "Char", "CharList", "Byte", "ByteList", "Symbol", "SymbolList", "Pair", "Range",
+    "Concatenation", "Slice", "Partial", "List", "Expression", "External", "True", "False", "Custom"].findIdx? (· == n))
+
+def typeName (d : Nat) : String :=
+  (["Invalid", "Unit", "Number", "Type", "Char", "CharList", "Byte", "ByteList", "Symbol", "SymbolList", "Pair", "Range",
+    "Concatenation", "Slice", "Partial", "List", "Expression", "External", "True", "False", "Custom"][d]?).getD "?"
+
+/-- constant + (for floats) the `Display` text the harness has checked against `format!("{}", v)` -/
+def parseConst (s : String) : Option (Const × Option (UInt64 × String)) :=
+  match parseFlat s with
+  | some ("i", [v]) => v.toInt?.map (fun v => (.int v, none))
+  | some ("f", [bits, disp]) =>
+    (Proto.parseHex bits.toList).map (fun n => (.float n.toUInt64, some (n.toUInt64, disp)))
+  | some ("c", [v]) => v.toNat?.map (fun v => (.char v, none))
+  | some ("b", [v]) => v.toNat?.map (fun v => (.byte v, none))
+  | some ("s", [v]) => v.toNat?.map (fun v => (.symbol v, none))
+  | some ("e", [v]) => v.toNat?.map (fun v => (.expression v, none))
+  | some ("x", [v]) => v.toNat?.map (fun v => (.external v, none))
+  | some ("ty", [n]) => (typeDiscr n).map (fun d => (.type d, none))
+  | some ("cl", args) => (args.mapM String.toNat?).map (fun l => (.charList l, none))
+  | some ("bl", args) => (args.mapM String.toNat?).map (fun l => (.byteList l, none))
+  | _ => none
+
+def showConst : Const → String
+  | .int v => s!"(i {v})"
+  | .float b => if isNaNBits b then "(f nan)" else s!"(f {Proto.toHex16 b.toNat})"
+  | .char c => s!"(c {c})"
+  | .byte b => s!"(b {b})"
+  | .symbol s => s!"(s {s})"
+  | .expression n => s!"(e {n})"
+  | .external n => s!"(x {n})"
+  | .type d => s!"(ty {typeName d})"
+  | .charList l => "(cl" ++ String.join (l.map (fun c => s!" {c}")) ++ ")"
+  | .byteList l => "(bl" ++ String.join (l.map (fun c => s!" {c}")) ++ ")"
+
+def showSCell : Option SCell → String
+  | some .unit => "U" | some .false => "F" | some .true => "T"
+  | some (.const c) => showConst c
+  | none => "<bad-addr>"
+
+/-- variant `v0`: `cache_add` as written; `v1`: with the proposed repair -/
+def cacheCase (f : List String) : String :=
+  match f with
+  | _ :: _ :: variant :: terms =>
+    match terms.mapM parseConst with
+    | none => "BAD-CASE"
+    | some cs =>
+      let table := cs.filterMap (·.2)
+      let display : UInt64 → List Nat := fun b => (((table.find? (·.1 == b)).map (·.2)).getD "").toList.map Char.toNat
+      let hash := rustHash display
+      let consts := cs.map (·.1)
+      let (s, addrs) := consts.foldl (fun (acc : SimpleStore × List Nat) c =>
+        let (s, as) := acc
+        if variant == "v1" then
+          match cacheAddFixed hash s c with
+          | some (s1, a) => (s1, a :: as)
+          | none => (s, 0 :: as)
+        else
+          let (s1, a) := cacheAdd hash s c
+          (s1, a :: as)) ({}, [])
+      let addrs := addrs.reverse
+      let a := addrs.map toString
+      let r := addrs.map (fun a => showSCell s.data[a]?)
+      let x := consts.map (fun c => Proto.toHex16 (hash c).toNat)
+      s!"ok A={join "," a} R={join ";" r} X={join "," x}"
+  | _ => "BAD-CASE"
+
 end Garnish.Driver
